@@ -132,6 +132,15 @@ def run_case(case, ctx):
             if h.cmd("run_up_to", case["bound_first"]) != "ok" or not h.wait_quiescent(20):
                 ctx.viol("run-did-not-complete", {**where, "snapshot": h.snapshot()})
                 return
+        if h.sim.run_state.name != "ENDED" and case.get("bound_first") is None and len(prog["handlers"]) % 3 == 0:
+            # the last command is a bounded run whose bound lies beyond the replication end (that is a run to the end,
+            # observations at the end time included)
+            ctx.count("replications_finished_by_a_bound_beyond_the_end")
+            beyond = end + (end - start) / 2
+            lit_ = [float(beyond), "s"] if prog["clock"] == "duration" else (float(beyond) if prog["clock"] == "float" or beyond != int(beyond) else int(beyond))
+            if h.cmd("run_up_to", lit_) != "ok" or not h.wait_quiescent(20):
+                ctx.viol("run-did-not-complete", {**where, "snapshot": h.snapshot()})
+                return
         if h.sim.run_state.name != "ENDED":
             if h.cmd("start") != "ok" or not h.wait_quiescent(20):
                 ctx.viol("run-did-not-complete", {**where, "snapshot": h.snapshot()})
